@@ -1,3 +1,388 @@
 import GlotaranModel.C03
+import Mathlib.Tactic.Ring
+import Mathlib.Tactic.FieldSimp
 namespace Glotaran.C03
+open Glotaran.LinAlg Glotaran.C02
+
+/-- entry (i, j) of a list-of-rows matrix; `none` when the position does not exist -/
+def entry? (m : Mat) (i j : Nat) : Option Rat := (m[i]?).bind (fun r => r[j]?)
+
+theorem entry?_eq_some_iff (m : Mat) (i j : Nat) (x : Rat) :
+    entry? m i j = some x ↔ ∃ (hi : i < m.length) (hj : j < m[i].length), m[i][j] = x := by
+  unfold entry?
+  constructor
+  · intro h
+    obtain ⟨r, hr, hx⟩ := Option.bind_eq_some_iff.mp h
+    obtain ⟨hi, rfl⟩ := List.getElem?_eq_some_iff.mp hr
+    obtain ⟨hj, rfl⟩ := List.getElem?_eq_some_iff.mp hx
+    exact ⟨hi, hj, rfl⟩
+  · rintro ⟨hi, hj, rfl⟩
+    simp [List.getElem?_eq_getElem hi, List.getElem?_eq_getElem hj]
+
+theorem entry?_zipWith (f : Rat → Rat → Rat) (a b : Mat) (i j : Nat) :
+    entry? (List.zipWith (fun r s => List.zipWith f r s) a b) i j =
+      match entry? a i j, entry? b i j with
+      | some x, some y => some (f x y)
+      | _, _ => none := by
+  unfold entry?
+  rw [List.getElem?_zipWith]
+  cases ha : a[i]? with
+  | none => simp
+  | some r =>
+    cases hb : b[i]? with
+    | none =>
+      simp only [Option.bind_some, Option.bind_none]
+      cases r[j]? <;> rfl
+    | some s =>
+      simp only [Option.bind_some, List.getElem?_zipWith]
+      cases r[j]? <;> cases s[j]? <;> rfl
+
+theorem entry?_subMat (a b : Mat) (i j : Nat) (x y : Rat)
+    (hx : entry? a i j = some x) (hy : entry? b i j = some y) :
+    entry? (subMat a b) i j = some (x - y) := by
+  unfold subMat; rw [entry?_zipWith, hx, hy]
+
+theorem entry?_divMat (a b : Mat) (i j : Nat) (x y : Rat)
+    (hx : entry? a i j = some x) (hy : entry? b i j = some y) :
+    entry? (divMat a b) i j = some (x / y) := by
+  unfold divMat; rw [entry?_zipWith, hx, hy]
+
+/-! ### whole matrices -/
+
+/-- entrywise sum -/
+def addMat (a b : Mat) : Mat := List.zipWith (fun r s => List.zipWith (· + ·) r s) a b
+
+/-- the row lengths of a matrix -/
+def shape (a : Mat) : List Nat := a.map List.length
+
+theorem vec_sub_add (x y : Vec) (h : x.length = y.length) :
+    List.zipWith (· + ·) (List.zipWith (· - ·) x y) y = x := by
+  induction x generalizing y with
+  | nil => simp
+  | cons a x ih =>
+    cases y with
+    | nil => simp at h
+    | cons b y =>
+      simp only [List.length_cons, Nat.add_right_cancel_iff] at h
+      simp only [List.zipWith_cons_cons, ih y h]
+      congr 1; ring
+
+theorem subMat_addMat (a b : Mat) (h : shape a = shape b) : addMat (subMat a b) b = a := by
+  induction a generalizing b with
+  | nil => simp [addMat, subMat]
+  | cons r a ih =>
+    cases b with
+    | nil => simp [shape] at h
+    | cons s b =>
+      simp only [shape, List.map_cons, List.cons.injEq] at h
+      simp only [addMat, subMat, List.zipWith_cons_cons, vec_sub_add r s h.1]
+      congr 1
+      exact ih b h.2
+
+theorem shape_divMat (a w : Mat) (h : shape a = shape w) : shape (divMat a w) = shape a := by
+  induction a generalizing w with
+  | nil => simp [divMat, shape]
+  | cons r a ih =>
+    cases w with
+    | nil => simp [shape] at h
+    | cons s w =>
+      simp only [shape, List.map_cons, List.cons.injEq] at h
+      simp only [shape, divMat, List.zipWith_cons_cons, List.map_cons, List.length_zipWith, ← h.1, Nat.min_self]
+      congr 1
+      exact ih w h.2
+
+/-! ### ofColumns -/
+
+theorem ofColumns_length (nModel : Nat) (cols : List Vec) : (ofColumns nModel cols).length = nModel := by
+  simp [ofColumns]
+
+theorem ofColumns_row_length (nModel : Nat) (cols : List Vec) (r : Vec) (hr : r ∈ ofColumns nModel cols) :
+    r.length = cols.length := by
+  simp only [ofColumns, List.mem_map] at hr
+  obtain ⟨m, _, rfl⟩ := hr
+  simp
+
+theorem ofColumns_getElem (nModel : Nat) (cols : List Vec) (m : Nat) (hm : m < (ofColumns nModel cols).length) :
+    (ofColumns nModel cols)[m] = cols.map (fun c => c.getD m 0) := by
+  simp [ofColumns]
+
+theorem entry?_ofColumns (nModel : Nat) (cols : List Vec) (m g : Nat) (hm : m < nModel) (hg : g < cols.length) :
+    entry? (ofColumns nModel cols) m g = some (cols[g].getD m 0) := by
+  rw [entry?_eq_some_iff]
+  have h1 : m < (ofColumns nModel cols).length := by rw [ofColumns_length]; exact hm
+  refine ⟨h1, ?_, ?_⟩
+  · rw [ofColumns_getElem]; simpa using hg
+  · simp [ofColumns_getElem]
+
+
+/-! ### chunk -/
+
+theorem chunk_length (n k : Nat) (v : Vec) : (chunk n k v).length = k := by
+  induction k generalizing v with
+  | zero => simp [chunk]
+  | succ k ih => simp [chunk, ih]
+
+theorem chunk_flatten' (n : Nat) (vs : List Vec) (h : ∀ v ∈ vs, v.length = n) :
+    chunk n vs.length vs.flatten = vs := by
+  induction vs with
+  | nil => simp [chunk]
+  | cons v vs ih =>
+    have hv : v.length = n := h v (by simp)
+    simp only [List.length_cons, List.flatten_cons, chunk]
+    rw [List.take_left' hv, List.drop_left' hv, ih (fun u hu => h u (by simp [hu]))]
+
+/-- un-flattening `data.T.flatten()` gives back the columns -/
+theorem chunk_flatMap_col (a : Mat) (G : Nat) :
+    chunk a.length G ((List.range G).flatMap (fun g => col a g)) = (List.range G).map (col a) := by
+  have h := chunk_flatten' a.length ((List.range G).map (col a)) (by
+    intro v hv
+    simp only [List.mem_map] at hv
+    obtain ⟨g, _, rfl⟩ := hv
+    simp [col])
+  simpa [List.flatMap_def] using h
+
+theorem ofColumns_columns (a : Mat) (G : Nat) (hrow : ∀ r ∈ a, r.length = G) :
+    ofColumns a.length ((List.range G).map (col a)) = a := by
+  apply List.ext_getElem
+  · simp [ofColumns]
+  · intro m h1 h2
+    have hr : a[m].length = G := hrow _ (List.getElem_mem h2)
+    simp only [ofColumns, List.getElem_map, List.getElem_range, List.map_map]
+    apply List.ext_getElem
+    · simp [hr]
+    · intro g h3 h4
+      simp [col, h2, List.getD_eq_getElem?_getD, List.getElem?_eq_getElem h4]
+
+/-! ### un-stacking -/
+
+theorem foldl_add_eq_sum (l : List Nat) : l.foldl (· + ·) 0 = l.sum := by
+  rw [List.sum_eq_foldl]
+
+theorem drop_flatten_take {α} (bs : List (List α)) (k : Nat) :
+    bs.flatten.drop ((bs.take k).map List.length).sum = (bs.drop k).flatten := by
+  induction bs generalizing k with
+  | nil => simp
+  | cons b bs ih =>
+    cases k with
+    | zero => simp
+    | succ k =>
+      simp only [List.take_succ_cons, List.map_cons, List.sum_cons, List.flatten_cons, List.drop_succ_cons]
+      rw [← List.drop_drop, List.drop_left, ih]
+
+theorem unstack_stack_sum {α} (bs : List (List α)) (k : Nat) (hk : k < bs.length) :
+    (bs.flatten.drop ((bs.take k).map List.length).sum).take bs[k].length = bs[k] := by
+  rw [drop_flatten_take, List.drop_eq_getElem_cons hk, List.flatten_cons, List.take_left]
+
+/-! ### shapes of results -/
+
+
+theorem mapM_option_length {α β} (f : α → Option β) (l : List α) (l' : List β)
+    (h : l.mapM f = some l') : l'.length = l.length := by
+  induction l generalizing l' with
+  | nil => simp at h; subst h; rfl
+  | cons a l ih =>
+    rw [List.mapM_cons] at h
+    cases hfa : f a with
+    | none => simp [hfa] at h
+    | some b =>
+      cases hl : l.mapM f with
+      | none => simp [hfa, hl] at h
+      | some bs =>
+        simp [hfa, hl] at h
+        subst h
+        simp [ih bs hl]
+
+theorem finish_label (d : Dataset) (labels : List String) (clps : List Vec) (wres : Mat) :
+    (finish d labels clps wres).label = d.label := by
+  unfold finish; split <;> rfl
+
+theorem finish_clps (d : Dataset) (labels : List String) (clps : List Vec) (wres : Mat) :
+    (finish d labels clps wres).clps = clps := by
+  unfold finish; split <;> rfl
+
+theorem finish_clpLabels (d : Dataset) (labels : List String) (clps : List Vec) (wres : Mat) :
+    (finish d labels clps wres).clpLabels = labels := by
+  unfold finish; split <;> rfl
+
+theorem finish_residual_length (d : Dataset) (labels : List String) (clps : List Vec) (wres : Mat) :
+    (finish d labels clps wres).residual.length =
+      match d.weight with | none => wres.length | some w => min wres.length w.length := by
+  cases hw : d.weight <;> simp [finish, hw, divMat]
+
+theorem unlinkedProblems_length (mi : ModelItems) (d : Dataset) (ps : List IndexProblem)
+    (h : unlinkedProblems mi d = some ps) : ps.length = d.nGlobal := by
+  unfold unlinkedProblems at h
+  split at h
+  · simp at h
+  · simp only [Option.some.injEq] at h
+    subst h; simp
+
+/-- the shape of an unlinked per-index result -/
+theorem unlinkedResult_shape (mi : ModelItems) (s : Solver) (d : Dataset) (r : DsResult)
+    (hg : d.gmcs = []) (h : unlinkedResult mi s d = some r) :
+    r.label = d.label ∧ r.clps.length = d.nGlobal ∧
+    r.residual.length = (match d.weight with | none => d.nModel | some w => min d.nModel w.length) := by
+  unfold unlinkedResult at h
+  simp only [hg, List.isEmpty_nil, Bool.not_true, Bool.false_eq_true, if_false] at h
+  cases hps : unlinkedProblems mi d with
+  | none => simp [hps] at h
+  | some ps =>
+    simp only [hps] at h
+    obtain ⟨sols, hsols, rfl⟩ := Option.map_eq_some_iff.mp h
+    have hl := mapM_option_length _ _ _ hsols
+    rw [unlinkedProblems_length mi d ps hps] at hl
+    refine ⟨finish_label .., ?_, ?_⟩
+    · rw [finish_clps]; simpa using hl
+    · rw [finish_residual_length]; simp only [ofColumns_length]
+
+/-! ### renaming the datasets of a linked group -/
+
+/-- rename a dataset -/
+def renameDs (f : String → String) (d : Dataset) : Dataset := { d with label := f d.label }
+def renameGroup (f : String → String) (g : Group) : Group := { g with datasets := g.datasets.map (renameDs f) }
+def relabel (f : String → String) (r : DsResult) : DsResult := { r with label := f r.label }
+
+@[simp] theorem renameDs_label (f d) : (renameDs f d).label = f d.label := rfl
+@[simp] theorem renameDs_globalAxis (f d) : (renameDs f d).globalAxis = d.globalAxis := rfl
+@[simp] theorem renameDs_data (f d) : (renameDs f d).data = d.data := rfl
+@[simp] theorem renameDs_weight (f d) : (renameDs f d).weight = d.weight := rfl
+@[simp] theorem renameDs_scale (f d) : (renameDs f d).scale = d.scale := rfl
+@[simp] theorem renameDs_mcs (f d) : (renameDs f d).mcs = d.mcs := rfl
+@[simp] theorem renameDs_gmcs (f d) : (renameDs f d).gmcs = d.gmcs := rfl
+@[simp] theorem renameDs_nModel (f d) : (renameDs f d).nModel = d.nModel := rfl
+@[simp] theorem renameDs_nGlobal (f d) : (renameDs f d).nGlobal = d.nGlobal := rfl
+@[simp] theorem renameDs_weightedData (f d) : (renameDs f d).weightedData = d.weightedData := rfl
+
+theorem mapM_rename (f : String → String) (ds : List Dataset) :
+    (ds.map (renameDs f)).mapM (fun d => (datasetMatrix d.mcs).map (fun lm => (d, lm))) =
+    (ds.mapM (fun d => (datasetMatrix d.mcs).map (fun lm => (d, lm)))).map
+      (List.map (fun p => (renameDs f p.1, p.2))) := by
+  induction ds with
+  | nil => simp
+  | cons d ds ih =>
+    simp only [List.map_cons, List.mapM_cons, ih, renameDs_mcs]
+    cases datasetMatrix d.mcs <;> simp
+    cases (ds.mapM (fun d => (datasetMatrix d.mcs).map (fun lm => (d, lm)))) <;> simp
+
+theorem mem_rename (f : String → String) (dms : List (Dataset × LMat)) (aligned : List (List Rat)) (v : Rat) :
+    ((dms.map (fun p => (renameDs f p.1, p.2))).zip aligned).filterMap
+        (fun da => (da.2.idxOf? v).map (fun i => (da.1, i))) =
+    ((dms.zip aligned).filterMap (fun da => (da.2.idxOf? v).map (fun i => (da.1, i)))).map
+        (fun di => ((renameDs f di.1.1, di.1.2), di.2)) := by
+  rw [List.zip_map_left, List.filterMap_map, List.map_filterMap]
+  congr 1
+  funext da
+  simp only [Function.comp_def, Prod.map, id]
+  cases List.idxOf? v da.2 <;> rfl
+
+theorem linkedProblems_rename (mi : ModelItems) (f : String → String) (g : Group) :
+    linkedProblems mi (renameGroup f g) = linkedProblems mi g := by
+  unfold linkedProblems
+  have ha : (renameGroup f g).datasets.map (·.globalAxis) = g.datasets.map (·.globalAxis) := by
+    simp [renameGroup, Function.comp_def]
+  rw [ha]
+  show (match alignAxes (g.datasets.map (·.globalAxis)) g.tol g.method with | none => none | some aligned => _) = _
+  cases alignAxes (g.datasets.map (·.globalAxis)) g.tol g.method with
+  | none => rfl
+  | some aligned =>
+    simp only [renameGroup, mapM_rename]
+    cases (g.datasets.mapM (fun d => (datasetMatrix d.mcs).map (fun lm => (d, lm)))) with
+    | none => rfl
+    | some dms =>
+      simp only [Option.map_some, mem_rename, List.map_map, List.any_map, List.flatMap_map,
+        Function.comp_def, renameDs_weight, renameDs_nModel, renameDs_nGlobal, renameDs_scale,
+        renameDs_weightedData]
+
+/-- the result of one member dataset of a linked group (the body of `linkedResults`) -/
+def linkedOne (mi : ModelItems) (da : List (Dataset × List Rat)) (axis : List Rat)
+    (sols : List (IndexProblem × (Vec × Vec))) (dk : Dataset × List Rat) : DsResult :=
+  let d := dk.1
+  let own := match datasetMatrix d.mcs with | some lm => lm.labels | none => []
+  let hits := (axis.zip sols).filter (fun vs => dk.2.contains vs.1)
+  let parts := hits.map (fun vs =>
+    let v := vs.1; let p := vs.2.1; let cr := vs.2.2
+    let full := retrieveClps mi p.fullLabels p.reduced.labels cr.1 p.x
+    let clp := own.map (fun l => match p.fullLabels.idxOf? l with | some j => full.getD j 0 | none => 0)
+    let before := (da.takeWhile (fun e => e.1.label != d.label)).filter (fun e => e.2.contains v)
+    let start := (before.map (fun e => e.1.nModel)).foldl (· + ·) 0
+    (clp, (cr.2.drop start).take d.nModel))
+  finish d own (parts.map (·.1)) (ofColumns d.nModel (parts.map (·.2)))
+
+theorem linkedResults_eq (mi : ModelItems) (g : Group) :
+    linkedResults mi g =
+      match alignAxes (g.datasets.map (·.globalAxis)) g.tol g.method, linkedProblems mi g with
+      | some aligned, some (axis, ps) =>
+        match ps.mapM (fun p => (solveLS g.solver p.reduced.m p.data).map (fun cr => (p, cr))) with
+        | none => none
+        | some sols => some ((g.datasets.zip aligned).map (linkedOne mi (g.datasets.zip aligned) axis sols))
+      | _, _ => none := rfl
+
+theorem takeWhile_congr_mem {α} (p q : α → Bool) (l : List α) (h : ∀ x ∈ l, p x = q x) :
+    l.takeWhile p = l.takeWhile q := by
+  induction l with
+  | nil => rfl
+  | cons a l ih =>
+    simp only [List.takeWhile_cons, h a (by simp)]
+    rw [ih (fun x hx => h x (by simp [hx]))]
+
+theorem finish_rename (f : String → String) (d : Dataset) (labels : List String) (clps : List Vec) (wres : Mat) :
+    finish (renameDs f d) labels clps wres = relabel f (finish d labels clps wres) := by
+  cases hw : d.weight <;> simp [finish, hw, relabel]
+
+theorem linkedOne_rename (mi : ModelItems) (f : String → String) (da : List (Dataset × List Rat)) (axis : List Rat)
+    (sols : List (IndexProblem × (Vec × Vec))) (d : Dataset) (k : List Rat)
+    (hinj : ∀ e ∈ da, f e.1.label = f d.label → e.1.label = d.label) :
+    linkedOne mi (da.map (Prod.map (renameDs f) id)) axis sols (renameDs f d, k) =
+      relabel f (linkedOne mi da axis sols (d, k)) := by
+  have htw : (da.map (Prod.map (renameDs f) id)).takeWhile (fun e => e.1.label != f d.label) =
+      (da.takeWhile (fun e => e.1.label != d.label)).map (Prod.map (renameDs f) id) := by
+    rw [List.takeWhile_map]
+    congr 1
+    apply takeWhile_congr_mem
+    intro e he
+    simp only [Function.comp_def, Prod.map, renameDs_label]
+    by_cases h : e.1.label = d.label
+    · simp [h]
+    · have : f e.1.label ≠ f d.label := fun hh => h (hinj e he hh)
+      rw [bne_iff_ne.mpr this, bne_iff_ne.mpr h]
+  unfold linkedOne
+  simp only [renameDs_label, renameDs_mcs, renameDs_nModel, htw, List.filter_map, List.map_map,
+    Function.comp_def, Prod.map, id, finish_rename]
+
+theorem linkedResults_rename (mi : ModelItems) (g : Group) (f : String → String)
+    (hinj : ∀ d1 ∈ g.datasets, ∀ d2 ∈ g.datasets, f d1.label = f d2.label → d1.label = d2.label) :
+    linkedResults mi (renameGroup f g) = (linkedResults mi g).map (List.map (relabel f)) := by
+  rw [linkedResults_eq, linkedResults_eq, linkedProblems_rename]
+  have ha : (renameGroup f g).datasets.map (·.globalAxis) = g.datasets.map (·.globalAxis) := by
+    simp [renameGroup, Function.comp_def]
+  rw [ha]
+  show (match alignAxes (g.datasets.map (·.globalAxis)) g.tol g.method, linkedProblems mi g with
+        | some aligned, some (axis, ps) =>
+          match ps.mapM (fun (p : IndexProblem) => (solveLS g.solver p.reduced.m p.data).map (fun cr => (p, cr))) with
+          | none => none
+          | some sols => some (((g.datasets.map (renameDs f)).zip aligned).map
+              (linkedOne mi ((g.datasets.map (renameDs f)).zip aligned) axis sols))
+        | _, _ => none) = _
+  cases alignAxes (g.datasets.map (·.globalAxis)) g.tol g.method with
+  | none => rfl
+  | some aligned =>
+    cases linkedProblems mi g with
+    | none => rfl
+    | some ap =>
+      obtain ⟨axis, ps⟩ := ap
+      simp only
+      cases ps.mapM (fun (p : IndexProblem) => (solveLS g.solver p.reduced.m p.data).map (fun cr => (p, cr))) with
+      | none => rfl
+      | some sols =>
+        simp only [Option.map_some, Option.some.injEq]
+        rw [List.zip_map_left, List.map_map, List.map_map]
+        apply List.map_congr_left
+        intro dk hdk
+        obtain ⟨d, k⟩ := dk
+        simp only [Function.comp_def, Prod.map, id]
+        apply linkedOne_rename
+        intro e he hfe
+        exact hinj e.1 (List.of_mem_zip he).1 d (List.of_mem_zip hdk).1 hfe
+
 end Glotaran.C03
+
